@@ -47,6 +47,7 @@ type sink struct {
 	fails       []failure
 	nFails      int
 	failsByKind map[string]int
+	quiet       bool // shrinking: count failures only
 	dist        map[string]int
 	tieByOp     map[string]int
 	seen        map[uint64]struct{}
@@ -68,6 +69,9 @@ func hash(s string) uint64 {
 
 // tie: one line for the model, the implementation's result line in the same format as the OCaml driver
 func (s *sink) tie(c []string, r []string) {
+	if s.quiet {
+		return
+	}
 	s.cases.Line(c...)
 	s.impl.Line(r...)
 	s.nTie++
@@ -78,6 +82,9 @@ func (s *sink) tie(c []string, r []string) {
 }
 
 func (s *sink) count(kind string, input []byte) {
+	if s.quiet {
+		return
+	}
 	s.evals++
 	s.dist[kind]++
 	h := hash(kind + "\x00" + string(input))
@@ -90,14 +97,18 @@ func (s *sink) count(kind string, input []byte) {
 }
 
 func (s *sink) fail(kind string, kv ...string) {
-	s.nFails++
-	s.failsByKind[kind]++
-	if s.failsByKind[kind] > 12 {
-		return
-	}
 	d := map[string]string{}
 	for i := 0; i+1 < len(kv); i += 2 {
 		d[kv[i]] = kv[i+1]
+	}
+	key := kind
+	if c, ok := d["class"]; ok {
+		key += "/" + c
+	}
+	s.nFails++
+	s.failsByKind[key]++
+	if s.quiet || s.failsByKind[key] > 12 {
+		return
 	}
 	s.fails = append(s.fails, failure{kind, d})
 }
@@ -135,6 +146,7 @@ func main() {
 		fmt.Fprintln(os.Stderr, "unknown mode")
 		os.Exit(2)
 	}
+	shrinkFailures(r.Fork(99))
 	S.cases.Close()
 	S.impl.Close()
 	writeReport()
